@@ -8,28 +8,39 @@ import Glom.Model.C13Env
   the re-parenting insertion loop, memo, auto-discovery map); the reference semantics
   (`Glom/Spec/C13.lean`) knows only a handler table and, per op, the *set* of covering types.
 
-  Every theorem is for all hierarchies satisfying `HierFacts` (transitivity and antisymmetry of
-  `issubclass`, `isinstance` closed under `issubclass` and containing the MRO, monotone C3
-  linearisation), all registries reachable by any history (`Rel`), all types and ops — no bound on
-  the number of classes, registrations or lookups.  `hierFacts_of_table` (Lemmas) derives
-  `HierFacts` from the decidable check the driver evaluates on the tables of every case.
+  `issubclass` / `isinstance` are abstract relations (`Hier.sub`, `Hier.inst`), not derived from the
+  MRO.  Every theorem is for all hierarchies satisfying `SubFacts` (transitivity and antisymmetry of
+  `issubclass`, `isinstance` closed under `issubclass`; no reflexivity) — only `c13_nearest_nominal`
+  and `c13_covers_subclasses` also need `MroFacts` (`isinstance` contains the MRO, monotone
+  linearisation) —, all registries reachable by any history (`Rel`), all types and ops — no bound
+  on the number of classes, registrations or lookups.  `subFacts_of_table` / `hierFacts_of_table`
+  (Lemmas) derive the hypotheses from the decidable checks the driver evaluates on the tables of
+  every case (`subOK`; a case failing it is skipped, one failing only `mroOK` is not).
 -/
 namespace Glom.Props.C13
 open Glom Glom.C13
 
 /-- **Facts obligation** (re-checked on every run against the tables regenerated from /repo):
     the code has the decision shape the model mirrors — `__init__` builds fresh state, registers
-    the builtin ops, then the default types; `register` and `register_op` end with the memo
-    reset; `_get_matching_types` collects the deepest match of every branch and
-    `_get_closest_type` drops strict superclasses and takes the MRO-minimum;
-    `register` and `register_op` validate first and write afterwards (every write to
-    `_op_type_map` / `_op_type_tree` / `_type_cache` follows the last `raise`; the only earlier
-    write is the `setdefault` of an empty per-op table), `get_handler` raises for a failed lookup
-    *before* the memo write (the memo holds only answers that were returned);
+    the builtin ops, then the default types; on every returning path of `register` / `register_op`
+    that wrote a table or a tree the memo is reset; `_get_matching_types` collects the deepest match
+    of every branch and `_get_closest_type` drops strict superclasses and takes the MRO-minimum
+    (symbolic summary, modulo local names / lambda-vs-def / order of independent statements);
+    `register` and `register_op` validate first and write afterwards (path-sensitive, helpers
+    followed: on no path does a write to `_op_type_map` / `_op_type_tree` / `_type_cache` precede a
+    `raise`; the only earlier write is the `setdefault` of an empty per-op table); `get_handler` raises
+    for a failed lookup *before* the memo write (`c13MemoStoresOnlySuccess`: what is stored under
+    `raise_exc=False` may be `False`) and answers a memo hit through the same `is False and raise_exc`
+    guard (`c13MemoHitRaises`, 8b51f6e); `register_op` walks the known types as a list in
+    registration order, not as a set (`c13KnownTypesOrdered`, 165f0ee);
     `_register_fuzzy_type` only creates a node that does not exist; `Glommer.__init__` builds its
     own registry and copies the ops of the registry it is created from; `register()` /
-    `Glommer.register` delegate to their registry — and `isinstance` / `issubclass` / `__mro__`
-    on the builtin target types and glom's two duck types are coherent. -/
+    `Glommer.register` delegate to their registry;
+    the extracted registration sequences build the registries the property takes as given
+    (`setupOK` against `pinnedSetup`); glom's two duck types and the auto-discovery functions of the
+    builtin ops answer what they are meant to on the builtin types (`duckOK`, `autoOK`) — and
+    `isinstance` / `issubclass` / `__mro__` on the builtin target types and glom's two duck types are
+    coherent. -/
 theorem c13_facts_wf : shapeOK = true ∧ tableOK builtinTab = true := by decide
 
 /-- hence the hierarchy of the builtin target types satisfies the hypotheses of every theorem
@@ -44,7 +55,7 @@ theorem c13_builtin_hier : HierFacts builtinHier :=
     superclass of the keys below it), has distinct, pairwise unrelated sibling keys, and contains
     *exactly* the types registered as covering (`tree_complete`); every tree node has a handler;
     the memo holds only current answers. -/
-theorem c13_invariants (H : Hier) (hH : HierFacts H) (S : Setup) (orders : List (List Ty))
+theorem c13_invariants (H : Hier) (hH : SubFacts H) (S : Setup) (orders : List (List Ty))
     (kinds : List RegKind) (acts : List Action) :
     All2 (Rel H) (finalWorld H (kinds.map (mkReg H S orders)) acts)
       (acts.foldl (refStep H) (kinds.map (refMk H S orders))) :=
@@ -59,7 +70,7 @@ theorem c13_tree_inv_complete (H : Hier) (r : Reg) (ρ : RefReg) (h : Rel H r ρ
 
 /-- **An exact registration beats any ancestor**: a type that is registered for the op (exact or
     not) is served by its own handler, whatever else is registered and whatever the memo holds. -/
-theorem c13_exact_wins (H : Hier) (hH : HierFacts H) (r : Reg) (ρ : RefReg) (h : Rel H r ρ)
+theorem c13_exact_wins (H : Hier) (hH : SubFacts H) (r : Reg) (ρ : RefReg) (h : Rel H r ρ)
     (op : Op) (t : Ty) (hd : Handler) (hreg : odGet t (r.map op) = some hd) (re : Bool) :
     (getHandler H r op t re).2.handler = some hd := by
   rw [getHandler_handler hH h]
@@ -74,7 +85,7 @@ theorem c13_exact_wins (H : Hier) (hH : HierFacts H) (r : Reg) (ρ : RefReg) (h 
     returns a type the reference allows (`allowed`: the nearest base class in MRO order if no
     matching covering type lies strictly below it, else a minimal matching covering type), and
     returns `None` only when no covering type matches. -/
-theorem c13_nearest (H : Hier) (hH : HierFacts H) (r : Reg) (ρ : RefReg) (h : Rel H r ρ)
+theorem c13_nearest (H : Hier) (hH : SubFacts H) (r : Reg) (ρ : RefReg) (h : Rel H r ρ)
     (op : Op) (t : Ty) :
     match closest H t (r.tree op) with
     | none => allowed H (ρ.coverOf op) t = []
@@ -83,7 +94,7 @@ theorem c13_nearest (H : Hier) (hH : HierFacts H) (r : Reg) (ρ : RefReg) (h : R
 
 /-- **A more specific registered type is never overridden by a less specific one**: no covering
     type the object is an instance of is a strict subclass of the chosen type. -/
-theorem c13_never_less_specific (H : Hier) (hH : HierFacts H) (r : Reg) (ρ : RefReg) (h : Rel H r ρ)
+theorem c13_never_less_specific (H : Hier) (hH : SubFacts H) (r : Reg) (ρ : RefReg) (h : Rel H r ρ)
     (op : Op) (t c : Ty) (hc : closest H t (r.tree op) = some c) :
     c ∈ ρ.coverOf op ∧ H.inst t c = true ∧
     ∀ d ∈ ρ.coverOf op, H.inst t d = true → d ≠ c → H.sub d c = false := by
@@ -95,7 +106,7 @@ theorem c13_never_less_specific (H : Hier) (hH : HierFacts H) (r : Reg) (ρ : Re
 
 /-- **The nearest base class wins** whenever no matching covering type lies strictly below it:
     `n` is the first class of the object's MRO that covers. -/
-theorem c13_nearest_base (H : Hier) (hH : HierFacts H) (r : Reg) (ρ : RefReg) (h : Rel H r ρ)
+theorem c13_nearest_base (H : Hier) (hH : SubFacts H) (r : Reg) (ρ : RefReg) (h : Rel H r ρ)
     (op : Op) (t n : Ty)
     (hn : firstNominal H t (applicable H (ρ.coverOf op) t) = some n)
     (hmin : ∀ d ∈ ρ.coverOf op, H.inst t d = true → d ≠ n → H.sub d n = false) :
@@ -120,7 +131,7 @@ theorem c13_nearest_nominal (H : Hier) (hH : HierFacts H) (r : Reg) (ρ : RefReg
     (hn : firstNominal H t (applicable H (ρ.coverOf op) t) = some n) :
     closest H t (r.tree op) = some n := by
   have hal := allowed_nominal H hH (ρ.coverOf op) t n hnom hn
-  have := c13_nearest H hH r ρ h op t
+  have := c13_nearest H hH.toSubFacts r ρ h op t
   cases hc : closest H t (r.tree op) with
   | none => rw [hc] at this; simp only at this; rw [hal] at this; simp at this
   | some c => rw [hc] at this; simp only at this; rw [hal] at this; simp at this; rw [this]
@@ -131,7 +142,7 @@ theorem c13_covers_subclasses (H : Hier) (hH : HierFacts H) (r : Reg) (ρ : RefR
     (op : Op) (t c : Ty) (hc : c ∈ ρ.coverOf op) (hm : c ∈ H.mro t) :
     ∃ c', closest H t (r.tree op) = some c' := by
   have hcn : c ∈ (r.tree op).nodes := ((h.tree op).2.2 c).1 hc
-  obtain ⟨e, he, _⟩ := matching_complete H hH t (r.tree op) (h.tree op).1 c hcn (hH.mro_inst t c hm)
+  obtain ⟨e, he, _⟩ := matching_complete H hH.toSubFacts t (r.tree op) (h.tree op).1 c hcn (hH.mro_inst t c hm)
   cases hcl : closest H t (r.tree op) with
   | some c' => exact ⟨c', rfl⟩
   | none =>
@@ -139,7 +150,7 @@ theorem c13_covers_subclasses (H : Hier) (hH : HierFacts H) (r : Reg) (ρ : RefR
     have hdrop : dropSupers H (matching H t (r.tree op)) = [] := pickMin_none hcl
     have hne : matching H t (r.tree op) ≠ [] := by
       intro e'; rw [e'] at he; simp at he
-    obtain ⟨m, hm, hmin⟩ := dropSupers_ne_nil H hH _ hne
+    obtain ⟨m, hm, hmin⟩ := dropSupers_ne_nil H hH.toSubFacts _ hne
     have : m ∈ dropSupers H (matching H t (r.tree op)) := (mem_dropSupers H _ m).2 ⟨hm, hmin⟩
     rw [hdrop] at this; simp at this
 
@@ -161,7 +172,7 @@ theorem c13_cover_order_independent (H : Hier) (ρ : RefReg)
 /-- (2) Two registries — reached by *any* two histories — whose covering sets for the op agree
     choose the same type whenever the reference allows exactly one (`allowed_nominal`: always the
     case when every match is a real base class, i.e. within an inheritance chain). -/
-theorem c13_order_independent_chain (H : Hier) (hH : HierFacts H) (r₁ r₂ : Reg) (ρ₁ ρ₂ : RefReg)
+theorem c13_order_independent_chain (H : Hier) (hH : SubFacts H) (r₁ r₂ : Reg) (ρ₁ ρ₂ : RefReg)
     (h₁ : Rel H r₁ ρ₁) (h₂ : Rel H r₂ ρ₂) (op : Op) (t n : Ty)
     (hc : ∀ x, x ∈ ρ₁.coverOf op ↔ x ∈ ρ₂.coverOf op)
     (hn : allowed H (ρ₁.coverOf op) t = [n]) :
@@ -183,15 +194,17 @@ theorem c13_order_independent_chain (H : Hier) (hH : HierFacts H) (r₁ r₂ : R
       have := (hcong c).2 a₂
       rw [hn] at this; simp at this; rw [this]
 
-/-- **The memo never changes an answer, for any interleaving of lookups.**  The handler a lookup
-    yields after a history `pre` is the one it yields after the same history with every earlier
-    lookup deleted. -/
-theorem c13_lookup_pure (H : Hier) (hH : HierFacts H) (S : Setup) (orders : List (List Ty))
+/-- **The memo never changes an answer, for any interleaving of lookups** — the answer *in full*:
+    which handler, and whether "no handler" comes as a raised UnregisteredTarget or as a returned
+    `False`.  What a lookup yields after a history `pre` is what it yields after the same history with
+    every earlier lookup deleted (in particular an earlier `raise_exc=False` lookup of the same type
+    cannot turn the UnregisteredTarget of a raising lookup into a returned `False`: that is the
+    repair 8b51f6e; counter-example for the code before it below). -/
+theorem c13_lookup_pure (H : Hier) (hH : SubFacts H) (S : Setup) (orders : List (List Ty))
     (kinds : List RegKind) (pre : List Action) (i : Nat) (op : Op) (t : Ty) (re : Bool) :
-    ((step H (finalWorld H (kinds.map (mkReg H S orders)) pre) (.lookup i op t re)).2).map
-      Answer.handler =
-    ((step H (finalWorld H (kinds.map (mkReg H S orders)) (pre.filter (fun a => !a.isLookup)))
-      (.lookup i op t re)).2).map Answer.handler := by
+    (step H (finalWorld H (kinds.map (mkReg H S orders)) pre) (.lookup i op t re)).2 =
+    (step H (finalWorld H (kinds.map (mkReg H S orders)) (pre.filter (fun a => !a.isLookup)))
+      (.lookup i op t re)).2 := by
   have hrel₁ := c13_invariants H hH S orders kinds pre
   have hrel₂ := c13_invariants H hH S orders kinds (pre.filter (fun a => !a.isLookup))
   rw [refStep_dropLookups] at hrel₂
@@ -205,8 +218,23 @@ theorem c13_lookup_pure (H : Hier) (hH : HierFacts H) (S : Setup) (orders : List
     obtain ⟨ρ, hρ, hR⟩ := (hrel₁.get i).1 r h1
     obtain ⟨ρ', hρ', hR'⟩ := (hrel₂.get i).1 r' hr'
     rw [hr']
-    simp only [Option.map_some]
-    rw [getHandler_handler hH hR, getHandler_handler hH hR', hrr.resolve]
+    simp only
+    have a₁ := getHandler_answer hH hR op t re
+    have a₂ := getHandler_answer hH hR' op t re
+    rw [hrr.resolve] at a₁
+    rw [← a₂] at a₁
+    exact congrArg some (Option.some.inj a₁)
+
+/-- **The answer of a lookup in full**: on every reachable registry it is `answerOf` of the
+    un-memoised lookup — the handler, or, when there is none, UnregisteredTarget exactly when
+    `raise_exc` is true and a returned `False` exactly when it is false — whatever the memo holds. -/
+theorem c13_answer_in_full (H : Hier) (hH : SubFacts H) (r : Reg) (ρ : RefReg) (h : Rel H r ρ)
+    (op : Op) (t : Ty) (re : Bool) :
+    ∃ hd, resolve H r op t = some hd ∧ hd ∈ refAnswers H ρ op t ∧
+      (getHandler H r op t re).2 = (if hd.isNone && re then Answer.unregistered else Answer.ret hd) := by
+  obtain ⟨hd, hres, hacc, hans, _⟩ := getHandlerV_answer hH h false op t re
+  rw [getHandlerV_false] at hans
+  exact ⟨hd, hres, hacc, hans⟩
 
 /-- a lookup changes nothing but the memo -/
 theorem c13_lookup_state (H : Hier) (r : Reg) (op : Op) (t : Ty) (re : Bool) :
@@ -296,10 +324,10 @@ theorem c13_registration_forgets_lookups (H : Hier) (sm : Bool) (r : Reg) (ls : 
 /-- **Either memo policy answers like the un-memoised lookup** on every registry reachable by a
     history (`Rel`): memoising failed lookups as well would be harmless *because* every
     registration resets the memo. -/
-theorem c13_memo_policy_irrelevant (H : Hier) (hH : HierFacts H) (r : Reg) (ρ : RefReg) (h : Rel H r ρ)
+theorem c13_memo_policy_irrelevant (H : Hier) (hH : SubFacts H) (r : Reg) (ρ : RefReg) (h : Rel H r ρ)
     (sm : Bool) (op : Op) (t : Ty) (re : Bool) :
     (getHandlerV sm H r op t re).2.handler = resolve H r op t ∧
-    answerOk (refAnswers H ρ op t) (getHandlerV sm H r op t re).2 = true ∧
+    answerOk (refAnswers H ρ op t) re (getHandlerV sm H r op t re).2 = true ∧
     Rel H (getHandlerV sm H r op t re).1 ρ :=
   ⟨(rel_getHandlerV hH h sm op t re).2.2, (rel_getHandlerV hH h sm op t re).2.1,
    (rel_getHandlerV hH h sm op t re).1⟩
@@ -374,7 +402,16 @@ theorem c13_rejected_history (H : Hier) (w : List Reg) (a : Action) (post : List
 
 /-- **Isolation**: an action on one registry leaves every other registry of the process exactly
     as it was (so a Glommer neither affects nor is affected by the module registry or another
-    Glommer). -/
+    Glommer).
+    *Scope (stated):* in the model the registries of a process are separate entries of a list and an
+    action updates one entry, so this holds by construction of the model; what it rests on in the
+    code — `Glommer.__init__` builds its *own* `TargetRegistry(…)`, stores it in a *copy* of the
+    scope (`ChainMap(dict(scope))`), copies only `(op, auto_func)` pairs from the registry it is
+    created from (no table, tree or memo is shared or copied), and `register` / `glom` delegate to
+    that registry — are the extracted facts `c13GlommerOwnRegistry`, `c13GlommerCopiesOps`,
+    `c13GlommerDelegates`, `c13ModuleDelegates` (part of `c13_facts_wf`), and the correspondence
+    (lookups on the *other* registries after every action; seed C13-s3 — a Glommer warm-started with
+    the module registry's memo — is caught there and by `c13GlommerCopiesOps`). -/
 theorem c13_isolation (H : Hier) (w : List Reg) (a : Action) (j : Nat)
     (hj : (match a with
       | .register i .. => i | .registerOp i .. => i | .lookup i .. => i | .badCall i .. => i) ≠ j) :
@@ -389,7 +426,10 @@ theorem c13_isolation (H : Hier) (w : List Reg) (a : Action) (j : Nat)
     | none => rfl
     | some r => exact updateAt_get_ne _ w i j hj
 
-/-- **A default Glommer is the module-level registry**: `Glommer.__init__` builds
+/-- **A default Glommer is the module-level registry** (both conjuncts hold by computation — `rfl` —:
+    the first evaluates `glommerOps` on the extracted registration sequences, the second is the
+    definition of `moduleReg` unfolded; the content is in the facts they are evaluated on and in
+    `setupOK`, which compares the extracted sequences with the pinned ones): `Glommer.__init__` builds
     `TargetRegistry(register_default_types=True)` and copies exactly the ops glom/mutation.py
     registers at import time; the resulting registry is the module registry's construction (up to
     the iteration orders `p₁ p₂` of the sets of known types). -/
@@ -406,7 +446,7 @@ theorem c13_default_glommer (H : Hier) (o₁ o₂ p₁ p₂ : List Ty) :
     implementation's observation by the correspondence driver: for every hierarchy, every set of
     registries, every history with lookups interleaved anywhere, every answer of the model is one
     the reference allows at that moment. -/
-theorem c13_model_checks (H : Hier) (hH : HierFacts H) (S : Setup) (orders : List (List Ty))
+theorem c13_model_checks (H : Hier) (hH : SubFacts H) (S : Setup) (orders : List (List Ty))
     (kinds : List RegKind) (acts : List Action) :
     checkC13 H S orders kinds acts (run H (kinds.map (mkReg H S orders)) acts) = true :=
   run_checks hH acts _ _ (All2.map _ _ (rel_mk hH S orders) kinds)
@@ -513,8 +553,21 @@ private def exKeepMemo (sm : Bool) : Reg :=
     cache := (getHandlerV sm exH exReg "uop" "B" sm).1.cache }
 example : (getHandlerV true exH (exKeepMemo true) "uop" "B" true).2 = .unregistered ∧
     resolve exH (exKeepMemo true) "uop" "B" = some (some "getattr") := by decide
-example : (getHandlerV false exH (exKeepMemo false) "uop" "B" true).2 = .ret none ∧
+example : (getHandlerV false exH (exKeepMemo false) "uop" "B" true).2 = .unregistered ∧
     resolve exH (exKeepMemo false) "uop" "B" = some (some "getattr") := by decide
+
+/-- **Counter-example for the memo-hit guard** (repair 8b51f6e, finding F41; the strict `answerOk`):
+    with the code as it was — a memo hit returns whatever is stored — a `raise_exc=False` lookup of a
+    type without a handler stores `False`, and the *raising* lookup of the same type that follows
+    returns that `False` instead of raising: not an answer the reference allows (the caller would
+    call it: `glom(5, [T])` failed with "'bool' object is not callable"), and not the answer the same
+    lookup gives without the earlier one.  The code that exists raises. -/
+example :
+    let r1 := (getHandler exH exReg "uop" "B" false).1
+    (getHandlerHitReturns exH r1 "uop" "B" true).2 = .ret none ∧
+    answerOk (refAnswers exH {} "uop" "B") true (getHandlerHitReturns exH r1 "uop" "B" true).2 = false ∧
+    (getHandlerHitReturns exH exReg "uop" "B" true).2 = .unregistered ∧
+    (getHandler exH r1 "uop" "B" true).2 = .unregistered := by decide
 
 /-- **Counter-example for the hypothesis `inst_sub`** (forced by `matching_complete`): a "class"
     whose `isinstance` is inherited duck typing — `isinstance(q, R2)` holds for every object with a
@@ -537,5 +590,455 @@ example : tableOK cexTab = false := by decide
 example : checkC13 cexTab.toHier { exSetup with defaults := [] } [] [.registry false] cexActs
     (run cexTab.toHier [freshReg cexTab.toHier { exSetup with defaults := [] } false] cexActs) = false := by
   decide
+
+/-! ## The type tree as a forest, for every insertion order; `issubclass` as an abstract relation
+
+  `Hier.sub` / `Hier.inst` are arbitrary relations (tables in the driver): nothing derives them from
+  the MRO, so virtual subclasses (`ABC.register`), `__subclasshook__` and `__instancecheck__` duck
+  types are ordinary instances.  Which theorem needs what:
+
+  | statement                                                             | needs                           |
+  |---|---|
+  | forest invariant (child ⊂ parent, siblings incomparable, nodes = set)  | transitivity of `sub` only      |
+  | lookup through the forest ∈ `allowed`; never less specific; invariants of histories; checker theorem; memo theorems | `SubFacts` (transitive, antisymmetric, `isinstance` upward closed) — **no MRO fact, no reflexivity** |
+  | order independence of the chosen type                                  | `SubFacts` + a unique minimal match (else registration order decides among unrelated virtual matches: counter-example below) |
+  | nearest *base class* wins (`c13_nearest_nominal`)                      | + `mro_lin` (counter-example)   |
+  | a covering class of the MRO is found (`c13_covers_subclasses`)         | + `mro_inst` (counter-example)  |
+-/
+
+/-- **The forest invariant holds for every insertion order** (induction over the registration
+    list; `_register_fuzzy_type` as coded, with its snapshot loop, `pop`, KeyError fallback and
+    recursion): every key is a superclass of the keys directly below it (`TreeInv`, at every level),
+    sibling keys are distinct and pairwise incomparable (`GoodF`, at every level), the nodes are
+    exactly the inserted types, and everything below a key is a subclass of it.  Only transitivity
+    of `issubclass` is used — not antisymmetry, not reflexivity, nothing about the MRO. -/
+theorem c13_forest_invariant (H : Hier)
+    (hT : ∀ a b c, H.sub a b = true → H.sub b c = true → H.sub a c = true) (order : List Ty) :
+    TreeInv H (insertAll H order) ∧ GoodF H (insertAll H order) ∧
+    (∀ x, x ∈ (insertAll H order).nodes ↔ x ∈ order) ∧
+    (∀ c kids, (insertAll H order).get? c = some kids → ∀ x ∈ kids.nodes, H.sub x c = true) :=
+  ⟨(insertAll_rel hT order).1, (insertAll_rel hT order).2.1, (insertAll_rel hT order).2.2,
+   TreeInv.descendants hT _ (insertAll_rel hT order).1⟩
+
+/-- one `register()` call is one such insertion for every op it touches (the keyword ops and the
+    ops with an auto-discovery function), and none when `exact=True` -/
+theorem c13_register_inserts (H : Hier) (r : Reg) (t : Ty) (e : Bool) (kw : List (Op × Handler)) (op : Op) :
+    (register H r t e kw).tree op =
+      if e = false ∧ op ∈ opsOf (r.autoMap.map (·.1)) kw then regFuzzy H t (r.tree op) else r.tree op :=
+  register_tree H r t e kw op
+
+/-- **Lookup through the forest = nearest registered type**, for every insertion order and every
+    abstract `issubclass` satisfying `SubFacts`: `_get_closest_type` over the forest built from
+    `order` returns a type the set-based reference allows for the *set* of inserted types, and
+    `None` only when it allows none. -/
+theorem c13_forest_lookup (H : Hier) (hH : SubFacts H) (order : List Ty) (t : Ty) :
+    match closest H t (insertAll H order) with
+    | none => allowed H order t = []
+    | some c => c ∈ allowed H order t :=
+  closest_allowed H hH t (insertAll H order) order (insertAll_rel hH.sub_trans order).1
+    (fun x => ((insertAll_rel hH.sub_trans order).2.2 x).symm)
+
+/-- … and never a less specific one: the chosen type is a *minimal* inserted type the object is an
+    instance of -/
+theorem c13_forest_lookup_minimal (H : Hier) (hH : SubFacts H) (order : List Ty) (t c : Ty)
+    (hc : closest H t (insertAll H order) = some c) :
+    c ∈ order ∧ H.inst t c = true ∧ ∀ d ∈ order, H.inst t d = true → d ≠ c → H.sub d c = false := by
+  have hr := insertAll_rel hH.sub_trans order
+  have hmin := (dropSupers_matching_iff H hH t (insertAll H order) order hr.1
+    (fun x => (hr.2.2 x).symm) c).1 (pickMin_some hc).1
+  obtain ⟨ha, hno⟩ := (mem_minimal H _ c).1 hmin
+  obtain ⟨hcov, hinst⟩ := (mem_applicable H _ t c).1 ha
+  exact ⟨hcov, hinst, fun d hd hi hne => hno d ((mem_applicable H _ t d).2 ⟨hd, hi⟩) hne⟩
+
+/-- **Order independence for an abstract `issubclass`**: two insertion orders of the same set of
+    types give (possibly different forests but) the same candidates after the superclasses are
+    dropped — the minimal matching types — and the same answer whenever
+    (a) some minimal match is a class of the object's MRO (the MRO index ranks those, and a class of
+        the MRO always beats one outside it: "within an inheritance chain"), or
+    (b) there is only one minimal match.
+    Otherwise — several unrelated virtual / duck matches and no real base among them — the first
+    registered wins: counter-example below.  No MRO *fact* is used (only that `list.index` is
+    injective on the members of a list). -/
+theorem c13_forest_order_independent (H : Hier) (hH : SubFacts H) (o₁ o₂ : List Ty)
+    (hp : ∀ x, x ∈ o₁ ↔ x ∈ o₂) (t : Ty) :
+    (∀ c, c ∈ dropSupers H (matching H t (insertAll H o₁)) ↔
+          c ∈ dropSupers H (matching H t (insertAll H o₂))) ∧
+    (((∃ m ∈ minimal H (applicable H o₁ t), m ∈ H.mro t) ∨
+      (∃ n, ∀ c ∈ minimal H (applicable H o₁ t), c = n)) →
+      closest H t (insertAll H o₁) = closest H t (insertAll H o₂)) := by
+  have hr₁ := insertAll_rel hH.sub_trans o₁
+  have hr₂ := insertAll_rel hH.sub_trans o₂
+  have h₁ := dropSupers_matching_iff H hH t (insertAll H o₁) o₁ hr₁.1 (fun x => (hr₁.2.2 x).symm)
+  have h₂ := dropSupers_matching_iff H hH t (insertAll H o₂) o₁ hr₂.1
+    (fun x => (hp x).trans (hr₂.2.2 x).symm)
+  have hiff : ∀ c, c ∈ dropSupers H (matching H t (insertAll H o₁)) ↔
+      c ∈ dropSupers H (matching H t (insertAll H o₂)) := fun c => (h₁ c).trans (h₂ c).symm
+  refine ⟨hiff, fun hyp => ?_⟩
+  -- both answers are key-minimal members of the same set
+  cases hf : closest H t (insertAll H o₁) with
+  | none =>
+    have hnil := pickMin_none hf
+    cases hg : closest H t (insertAll H o₂) with
+    | none => rfl
+    | some c =>
+      have := (hiff c).2 (pickMin_some hg).1
+      rw [hnil] at this; simp at this
+  | some c₁ =>
+    obtain ⟨hm₁, hk₁⟩ := pickMin_some hf
+    cases hg : closest H t (insertAll H o₂) with
+    | none =>
+      have hnil := pickMin_none hg
+      have := (hiff c₁).1 hm₁
+      rw [hnil] at this; simp at this
+    | some c₂ =>
+      obtain ⟨hm₂, hk₂⟩ := pickMin_some hg
+      have hkeq : key H t c₁ = key H t c₂ :=
+        Nat.le_antisymm (hk₁ c₂ ((hiff c₂).2 hm₂)) (hk₂ c₁ ((hiff c₁).1 hm₁))
+      rcases hyp with ⟨m, hmin, hmro⟩ | ⟨n, hn⟩
+      · have hmd : m ∈ dropSupers H (matching H t (insertAll H o₁)) := (h₁ m).2 hmin
+        have hlt : (H.mro t).idxOf m < (H.mro t).length := List.idxOf_lt_length_of_mem hmro
+        have hc₁ : c₁ ∈ H.mro t := by
+          apply List.idxOf_lt_length_iff.1
+          have := hk₁ m hmd
+          unfold key at this; omega
+        have hc₂ : c₂ ∈ H.mro t := by
+          apply List.idxOf_lt_length_iff.1
+          have := hk₂ m ((hiff m).1 hmd)
+          unfold key at this; omega
+        rw [idxOf_inj hc₁ hc₂ (by unfold key at hkeq; exact hkeq)]
+      · rw [hn c₁ ((h₁ c₁).1 hm₁), hn c₂ ((h₁ c₂).1 ((hiff c₂).2 hm₂))]
+
+/-- **What decides among several incomparable matches** (the reference allows each of them; the
+    property does not rank them).  The candidates are the deepest matches in *pre-order of the forest*,
+    superclasses dropped; a candidate that is a class of the object's MRO beats every candidate that
+    is not, the earliest MRO class beats the later ones — and **when no candidate is in the MRO
+    (virtual / duck types only) the first candidate in pre-order of the forest wins**.  The forest is
+    a function of the registration history alone (`c13_outcome_function_of_history`), so the choice
+    is reproducible, but it is *not* "first registered wins": re-parenting moves an early type behind
+    a later one (example below). -/
+theorem c13_tie_break_first_candidate (H : Hier) (t : Ty) (f : Forest) (c : Ty) (rest : List Ty)
+    (hd : dropSupers H (matching H t f) = c :: rest)
+    (hout : ∀ x ∈ c :: rest, x ∉ H.mro t) : closest H t f = some c := by
+  unfold closest
+  rw [hd]
+  simp only [pickMin]
+  rw [pickMinAux_all_ge]
+  intro x hx
+  rw [key_of_not_mem (hout c (by simp)), key_of_not_mem (hout x (by simp [hx]))]
+  exact Nat.le_refl _
+
+/-- **The outcome is a function of the registration history** (repair 165f0ee): `register_op` walks
+    the known types in *registration order* (`Reg.knownTypes`: first occurrence over the per-op
+    tables) — `runD` runs a history that way —, so two histories that differ only in the order their
+    `register_op` actions carry (the iteration order of a *set* of types, i.e. memory addresses,
+    before the repair) give the same answers; and `runD` is `run` on the canonised history, so the
+    checker theorem applies to it. -/
+theorem c13_outcome_function_of_history (H : Hier) (acts acts' : List Action)
+    (h : acts.map Action.eraseOrder = acts'.map Action.eraseOrder) (w : List Reg) :
+    runD H w acts = runD H w acts' := by
+  induction acts generalizing acts' w with
+  | nil =>
+    cases acts' with
+    | nil => rfl
+    | cons b bs => simp at h
+  | cons a as ih =>
+    cases acts' with
+    | nil => simp at h
+    | cons b bs =>
+      simp only [List.map_cons, List.cons.injEq] at h
+      simp only [runD]
+      rw [canon_eq_of_eraseOrder w h.1, ih bs h.2]
+
+theorem c13_runD_checks (H : Hier) (hH : SubFacts H) (S : Setup) (orders : List (List Ty))
+    (kinds : List RegKind) (acts : List Action) :
+    checkC13 H S orders kinds (canonActs H (kinds.map (mkReg H S orders)) acts)
+      (runD H (kinds.map (mkReg H S orders)) acts) = true := by
+  rw [runD_eq_run]
+  exact c13_model_checks H hH S orders kinds _
+
+/-- **Finding (F42, reported; glom as it is): re-registering a type nests it under itself.**
+    `_register_fuzzy_type(op, T)` on a level that already has the key `T` takes the first branch of its
+    loop (`issubclass(T, T)`), pops `T` and — the KeyError fallback, because the key was just popped —
+    creates a *new* key `T` holding the old one: `{T: sub}` becomes `{T: {T: sub}}`.  Every further
+    non-exact registration of the type (and every `register_op` of an op it is registered for) adds a
+    level: after `n` of them the tree is `n + 1` levels deep.  All invariants and all answers are
+    unaffected in the model — but `_get_matching_types` recurses once per level, so in CPython about a
+    thousand re-registrations of one type make every lookup of an unregistered subclass raise
+    RecursionError (harness: `DEEP_REREGISTRATION`, gated until the repair). -/
+theorem c13_reregistration_nests (H : Hier) (t : Ty) (ht : H.sub t t = true) :
+    (∀ kids, regFuzzy H t (.cons t kids .nil) = .cons t (.cons t kids .nil) .nil) ∧
+    (∀ n, regFuzzy H t (Forest.nestSelf t n) = Forest.nestSelf t (n + 1)) ∧
+    (∀ n, (Forest.nestSelf t n).depth = n + 1) := by
+  have h1 : ∀ kids, regFuzzy H t (.cons t kids .nil) = .cons t (.cons t kids .nil) .nil := by
+    intro kids
+    simp [regFuzzy, regLoop, regFinish, ht, Forest.get?, Forest.erase, Forest.set]
+  refine ⟨h1, fun n => ?_, fun n => ?_⟩
+  · cases n with
+    | zero => exact h1 .nil
+    | succ n => exact h1 _
+  · induction n with
+    | zero => simp [Forest.nestSelf, Forest.depth]
+    | succ n ih => simp [Forest.nestSelf, Forest.depth, ih]
+
+/-! ### `exact=True` -/
+
+/-- **`exact=True` registers the handler and nothing else**: no type tree changes … -/
+theorem c13_exact_keeps_trees (H : Hier) (r : Reg) (t : Ty) (kw : List (Op × Handler)) :
+    (register H r t true kw).typeTree = r.typeTree := rfl
+
+/-- … so **a type that was only ever registered with `exact=True` serves no other type**: as long
+    as it is not among the covering types, no lookup through the tree returns it. -/
+theorem c13_exact_only_never_serves (H : Hier) (hH : SubFacts H) (r : Reg) (ρ : RefReg) (h : Rel H r ρ)
+    (op : Op) (t : Ty) (hnc : t ∉ ρ.coverOf op) (kw : List (Op × Handler)) (t' c : Ty)
+    (hc : closest H t' ((register H r t true kw).tree op) = some c) : c ≠ t := by
+  rw [register_tree] at hc
+  simp only [Bool.true_eq_false, false_and, if_false] at hc
+  have := (c13_never_less_specific H hH r ρ h op t' c hc).1
+  intro e; subst e; exact hnc this
+
+/-- which types cover after a list of `register` calls (any mix of `exact`): the ones that
+    covered before, and every type with at least one non-exact registration touching the op -/
+theorem c13_cover_characterisation (H : Hier) (ρ : RefReg)
+    (regs : List (Ty × Bool × List (Op × Handler))) (op : Op) (x : Ty) :
+    x ∈ (refRegisterAll H ρ regs).coverOf op ↔
+      x ∈ ρ.coverOf op ∨ ∃ g ∈ regs, x = g.1 ∧ g.2.1 = false ∧ op ∈ opsOf (ρ.autoOps.map (·.1)) g.2.2 :=
+  refRegisterAll_cover H regs ρ op x
+
+/-- **The same type registered twice, `exact=True` the second time**: the tree keeps the type (it
+    goes on covering its subclasses — `exact` does not retract anything) and the *new* handler
+    serves them: a type `t'` that the tree resolved to `t` before is answered with the handler of
+    the second call. -/
+theorem c13_exact_reregistration (H : Hier) (r : Reg) (op : Op) (t t' : Ty) (hd : Handler)
+    (kw : List (Op × Handler)) (hk : odGet op kw = some hd)
+    (hne : odGet t' (r.map op) = none) (htt : t' ≠ t) (hc : closest H t' (r.tree op) = some t) :
+    resolve H (register H r t true kw) op t' = some hd := by
+  have hop : op ∈ opsOf (r.autoMap.map (·.1)) kw :=
+    (mem_opsOf _ _ _).2 (Or.inl (List.mem_map.2 ⟨(op, hd), odGet_some_mem hk, rfl⟩))
+  apply resolve_of_closest (c := t)
+  · rw [register_map_other H r t true kw op t' htt]; exact hne
+  · rw [register_tree]; simpa using hc
+  · rw [register_map_self H r t true kw op hop]
+    simp [pickHandler, hk]
+
+/-- **`exact=True` first, then a registration without `exact` and without a handler for the op**:
+    the type starts covering its subclasses (it is inserted into the op's tree) and keeps the
+    handler of the first call. -/
+theorem c13_fuzzy_after_exact (H : Hier) (hH : SubFacts H) (r : Reg) (ρ : RefReg) (h : Rel H r ρ)
+    (t : Ty) (op : Op) (hd : Handler)
+    (kw : List (Op × Handler)) (hh : odGet t (r.map op) = some hd) (hk : odGet op kw = none)
+    (hop : op ∈ r.autoMap.map (·.1)) :
+    odGet t ((register H r t false kw).map op) = some hd ∧
+    (register H r t false kw).tree op = regFuzzy H t (r.tree op) ∧
+    t ∈ ((register H r t false kw).tree op).nodes := by
+  have hops : op ∈ opsOf (r.autoMap.map (·.1)) kw := (mem_opsOf _ _ _).2 (Or.inr hop)
+  refine ⟨?_, ?_, ?_⟩
+  · rw [register_map_self H r t false kw op hops]
+    have : odGet t ((odGet op r.typeMap).getD []) = some hd := hh
+    simp [pickHandler, hk, this]
+  · rw [register_tree]; simp [hops]
+  · rw [register_tree]
+    simp only [hops, and_self, if_true]
+    exact ((TreeRel.step hH t (h.tree op)).2.2 t).1 (by rw [mem_insertSet]; exact Or.inl rfl)
+
+/-! ### subclasses of the builtin target types -/
+
+/-- what the real module-level registry answered at extraction time for `(type, op)` -/
+def implAnswer (t : Ty) (op : Op) : Option String :=
+  (Generated.c13ProbeAnswers.find? (fun a => a.1 == t && a.2.1 == op)).map (·.2.2)
+
+/-- how an instance of a direct subclass of a builtin target type is expected to be served, given
+    the answer for an instance of the base: the same, except that
+    (a) an instance with a `__dict__` whose base has no `keys` handler gets the obj-style keys, and
+    (b) a subclass of `str` / `bytes` is iterable (`_AbstractIterable.__subclasshook__` excludes
+        exactly `str` and `bytes`, not their subclasses). -/
+def probeExpected (baseAns : String) (base : Ty) (hasDict : Bool) (op : Op) : String :=
+  if op == "keys" && baseAns == "False" && hasDict then "_ObjStyleKeys.get_keys"
+  else if op == "iterate" && ["str", "bytes"].contains base then "iter"
+  else baseAns
+
+def probeOps : List Op := ["get", "iterate", "keys", "assign", "delete"]
+
+/-- **Builtin subclasses** (facts regenerated on every run: for each of `dict`, `list`, `tuple`,
+    `str`, `object` a probe subclass with a `__dict__` and one with `__slots__ = ()`, with the
+    `__mro__` / `isinstance` / `issubclass` / auto-discovery rows the interpreter answered, and the
+    answers of a copy of the real module-level registry for an instance of every probe and every
+    base, for every operation):
+    (1) the model's module registry resolves every one of these lookups exactly as the real one
+        answered;
+    (2) every probe is served like its base (`probeExpected`: the base's handler, obj-style keys
+        for an instance with a `__dict__` when the base has no `keys` handler, `iter` for
+        subclasses of `str`);
+    (3) the hierarchy with the probes satisfies `SubFacts` (so every theorem above applies to it). -/
+theorem c13_builtin_subclasses :
+    Generated.c13ProbeAnswers.all (fun a =>
+      resolve probeHier (canonModuleReg probeHier) a.2.1 a.1 == some (hOfName a.2.2)) = true ∧
+    Generated.c13Probes.all (fun p => probeOps.all (fun op =>
+      (implAnswer p.1 op).isSome &&
+      implAnswer p.1 op == (implAnswer p.2.1 op).map (fun b => probeExpected b p.2.1 p.2.2 op))) = true ∧
+    Generated.c13Probes.length = 10 ∧ Generated.c13ProbeAnswers.length = 75 ∧
+    subOK probeTab = true := by
+  decide +kernel
+
+/-! ### non-vacuity and counter-examples for the forest / abstract-relation theorems -/
+
+-- two insertion orders of the same types: different forests, same answers (`exTab`: the chain
+-- B2 ⊂ B ⊂ A, the mixin M, X ⊂ B, M, the ABC V with A, B, B2, X as virtual subclasses)
+example : insertAll exH ["A", "M", "V", "object"] =
+    .cons "object" (.cons "M" .nil (.cons "V" (.cons "A" .nil .nil) .nil)) .nil := by decide
+example : insertAll exH ["object", "V", "M", "A"] =
+    .cons "object" (.cons "V" (.cons "A" .nil .nil) (.cons "M" .nil .nil)) .nil := by decide
+-- X has two minimal matches (A and the mixin M); hypothesis (a) of `c13_forest_order_independent`
+-- holds (A is in X's MRO) and both forests answer A
+example : minimal exH (applicable exH ["A", "M", "V", "object"] "X") = ["A", "M"] := by decide
+example : "A" ∈ exH.mro "X" := by decide
+example : closest exH "X" (insertAll exH ["A", "M", "V", "object"]) = some "A" ∧
+    closest exH "X" (insertAll exH ["object", "V", "M", "A"]) = some "A" := by decide
+
+/-- **Counter-example for order independence without (a) / (b)**: two unrelated ABCs `V`, `W` with the
+    same virtual subclass `P` (neither is in `P`'s MRO): whichever was registered first wins.  The
+    property only promises order independence "within an inheritance chain". -/
+private def vwTab : HierTab where
+  mro := [("P", ["P", "object"]), ("V", ["V", "object"]), ("W", ["W", "object"]), ("object", ["object"])]
+  sub := [("P", "P"), ("P", "V"), ("P", "W"), ("P", "object"), ("V", "V"), ("V", "object"), ("W", "W"),
+          ("W", "object"), ("object", "object")]
+  inst := [("P", "P"), ("P", "V"), ("P", "W"), ("P", "object"), ("V", "V"), ("V", "object"), ("W", "W"),
+           ("W", "object"), ("object", "object")]
+  auto := []
+example : tableOK vwTab = true := by decide
+example : closest vwTab.toHier "P" (insertAll vwTab.toHier ["V", "W"]) = some "V" ∧
+    closest vwTab.toHier "P" (insertAll vwTab.toHier ["W", "V"]) = some "W" := by decide
+example : minimal vwTab.toHier (applicable vwTab.toHier ["V", "W"] "P") = ["V", "W"] ∧
+    "V" ∉ vwTab.toHier.mro "P" ∧ "W" ∉ vwTab.toHier.mro "P" := by decide
+
+/-- **Counter-example for transitivity** (`c13_forest_invariant`): `D ⊂ N ⊂ C` but not `D ⊂ C` (possible
+    with `__subclasshook__`).  Inserting `C`, `D`, `N` files `N` below `C` *and* — because the popped
+    `D` has to go below `N` and `N` is not a key of this level: the KeyError fallback — as a new
+    root next to `C`: the siblings `C`, `N` are related. -/
+private def ntTab : HierTab where
+  mro := [("C", ["C"]), ("N", ["N", "C"]), ("D", ["D", "N"])]
+  sub := [("C", "C"), ("N", "N"), ("D", "D"), ("N", "C"), ("D", "N")]
+  inst := [("C", "C"), ("N", "N"), ("N", "C"), ("D", "D"), ("D", "N"), ("D", "C")]
+  auto := []
+example : insertAll ntTab.toHier ["C", "D", "N"] =
+    .cons "C" (.cons "N" .nil .nil) (.cons "N" (.cons "D" .nil .nil) .nil) := by decide
+example : ¬ GoodF ntTab.toHier (insertAll ntTab.toHier ["C", "D", "N"]) := by
+  rw [show insertAll ntTab.toHier ["C", "D", "N"] =
+    .cons "C" (.cons "N" .nil .nil) (.cons "N" (.cons "D" .nil .nil) .nil) from by decide]
+  intro h
+  have := (h.2.1 "N" (by simp [Forest.roots])).2
+  exact absurd this (by decide)
+
+/-- **Counter-example for antisymmetry** (`c13_forest_lookup_minimal`, `c13_never_less_specific`): two
+    distinct types that are subclasses of each other (two ABCs with the same `__subclasshook__`).
+    The tree files `A` below `B`, the lookup answers `A`, and `B` — matching, different, and a
+    subclass of `A` — contradicts "no matching type strictly below the chosen one". -/
+private def asTab : HierTab where
+  mro := [("T", ["T"]), ("A", ["A"]), ("B", ["B"])]
+  sub := [("A", "A"), ("B", "B"), ("A", "B"), ("B", "A"), ("T", "T"), ("T", "A"), ("T", "B")]
+  inst := [("T", "T"), ("T", "A"), ("T", "B"), ("A", "A"), ("A", "B"), ("B", "B"), ("B", "A")]
+  auto := []
+example : subOK asTab = false := by decide
+example : closest asTab.toHier "T" (insertAll asTab.toHier ["A", "B"]) = some "A" ∧
+    "B" ∈ ["A", "B"] ∧ asTab.toHier.inst "T" "B" = true ∧ "B" ≠ "A" ∧ asTab.toHier.sub "B" "A" = true := by
+  decide
+
+/-- **Counter-example for `mro_lin`** (`c13_nearest_nominal`): `class T(V, A)` where `A` is a *virtual*
+    subclass of the ABC `V` (`V.register(A)`): Python's MRO is `[T, V, A, object]`, the virtual
+    superclass precedes its subclass.  `issubclass` / `isinstance` are a fine partial order
+    (`subOK`), every matching type is in the MRO, the first covering class of the MRO is `V` — and
+    the lookup answers `A`, the more specific one (as `c13_forest_lookup_minimal` says it must). -/
+private def mlTab : HierTab where
+  mro := [("T", ["T", "V", "A", "object"]), ("V", ["V", "object"]), ("A", ["A", "object"]),
+          ("object", ["object"])]
+  sub := [("T", "T"), ("T", "V"), ("T", "A"), ("T", "object"), ("V", "V"), ("V", "object"), ("A", "A"),
+          ("A", "V"), ("A", "object"), ("object", "object")]
+  inst := [("T", "T"), ("T", "V"), ("T", "A"), ("T", "object"), ("V", "V"), ("V", "object"), ("A", "A"),
+           ("A", "V"), ("A", "object"), ("object", "object")]
+  auto := []
+example : subOK mlTab = true ∧ mroOK mlTab = false := by decide
+example : (∀ x ∈ applicable mlTab.toHier ["V", "A"] "T", x ∈ mlTab.toHier.mro "T") ∧
+    firstNominal mlTab.toHier "T" (applicable mlTab.toHier ["V", "A"] "T") = some "V" ∧
+    closest mlTab.toHier "T" (insertAll mlTab.toHier ["V", "A"]) = some "A" := by decide
+
+/-- **Counter-example for `mro_inst`** (`c13_covers_subclasses`): a metaclass whose `__instancecheck__`
+    and `__subclasscheck__` answer False for real subclasses: `A` is in `B.__mro__`, `A` covers, and
+    the lookup for an instance of `B` finds nothing. -/
+private def miTab : HierTab where
+  mro := [("B", ["B", "A"]), ("A", ["A"])]
+  sub := [("A", "A"), ("B", "B")]
+  inst := [("A", "A"), ("B", "B")]
+  auto := []
+example : subOK miTab = true ∧ mroOK miTab = false := by decide
+example : "A" ∈ miTab.toHier.mro "B" ∧ closest miTab.toHier "B" (insertAll miTab.toHier ["A"]) = none := by
+  decide
+
+-- reflexivity is not assumed — and does not hold for glom's own iterable duck type
+example : builtinHier.sub "_AbstractIterable" "_AbstractIterable" = false := by decide
+
+/-! #### `exact=True` -/
+
+-- `exReg`: A, M, V registered as covering, B with exact=True (and never otherwise): B serves nobody,
+-- its subclass B2 is served by A (`c13_exact_only_never_serves`)
+example : "B" ∉ (exReg.tree "get").nodes ∧ closest exH "B2" (exReg.tree "get") = some "A" := by decide
+-- the same type twice, exact=True the second time (`c13_exact_reregistration`): A keeps covering and
+-- B2 — resolved through the tree to A — now gets the handler of the second call
+example : resolve exH exReg "get" "B2" = some (some "hA") ∧
+    resolve exH (register exH exReg "A" true [("get", some "hA2")]) "get" "B2" = some (some "hA2") := by
+  decide
+-- exact=True first (B, above), then without exact and without a handler (`c13_fuzzy_after_exact`):
+-- B keeps "hB", enters the tree below A, and now serves B2
+example : odGet "B" ((register exH exReg "B" false []).map "get") = some (some "hB") ∧
+    (register exH exReg "B" false []).tree "get" =
+      .cons "object" (.cons "M" .nil (.cons "V" (.cons "A" (.cons "B" .nil .nil) .nil) .nil)) .nil ∧
+    resolve exH (register exH exReg "B" false []) "get" "B2" = some (some "hB") := by decide
+
+/-! #### the tie-break among incomparable virtual matches; `register_op` before 165f0ee -/
+
+-- `c13_tie_break_first_candidate` on `vwTab` (P is a virtual subclass of the unrelated ABCs V and W,
+-- neither is in P's MRO): the first candidate in pre-order of the forest wins
+example : dropSupers vwTab.toHier (matching vwTab.toHier "P" (insertAll vwTab.toHier ["V", "W"])) = ["V", "W"] ∧
+    (∀ x ∈ ["V", "W"], x ∉ vwTab.toHier.mro "P") := by decide
+
+/-- … which is **not** "the first registered wins": register `V`, then `W`, then a supertype `U` of
+    `V`: `V` is re-parented below the new key `U`, which goes to the end — now `W` precedes `V` in
+    pre-order and wins, although `V` was registered first.  (The comment in `_get_closest_type`,
+    "ties keep registration order", is true only until a supertype of an earlier type is
+    registered.) -/
+private def vwuTab : HierTab :=
+  { vwTab with
+    mro := vwTab.mro ++ [("U", ["U", "object"])]
+    sub := vwTab.sub ++ [("U", "U"), ("U", "object"), ("V", "U"), ("P", "U")]
+    inst := vwTab.inst ++ [("U", "U"), ("U", "object"), ("V", "U"), ("P", "U")] }
+example : subOK vwuTab = true := by decide
+example : insertAll vwuTab.toHier ["V", "W", "U"] =
+    .cons "W" .nil (.cons "U" (.cons "V" .nil .nil) .nil) := by decide
+example : closest vwuTab.toHier "P" (insertAll vwuTab.toHier ["V", "W"]) = some "V" ∧
+    closest vwuTab.toHier "P" (insertAll vwuTab.toHier ["V", "W", "U"]) = some "W" := by decide
+
+/-- **Counter-example for the order of `known_types`** (`c13_outcome_function_of_history`; the code
+    before 165f0ee iterated a *set* of types): the same registrations, then the same `register_op`,
+    walked in two orders — two different forests and two different answers for `P`.  Which of the
+    two a process saw depended on the memory addresses of the classes. -/
+private def vwReg : Reg :=
+  register vwTab.toHier (register vwTab.toHier
+    (registerOp vwTab.toHier {} "get" "auto_get" false []) "V" true []) "W" true []
+example : vwReg.knownTypes = ["V", "W"] := by decide
+example :
+    let r₁ := registerOp vwTab.toHier vwReg "uop" "u" false ["V", "W"]
+    let r₂ := registerOp vwTab.toHier vwReg "uop" "u" false ["W", "V"]
+    closest vwTab.toHier "P" (r₁.tree "uop") = some "V" ∧ closest vwTab.toHier "P" (r₂.tree "uop") = some "W" ∧
+    registerOpD vwTab.toHier vwReg "uop" "u" false = r₁ := by decide
+-- `runD` ignores the order an action carries
+example : runD vwTab.toHier [vwReg]
+      [.registerOp 0 "uop" "u" false ["W", "V"], .lookup 0 "uop" "P" false] =
+    runD vwTab.toHier [vwReg] [.registerOp 0 "uop" "u" false [], .lookup 0 "uop" "P" false] := by decide
+
+-- `c13_reregistration_nests` on the default registry of the model: `register(dict, get=…)` and
+-- `register(dict, keys=…)` are two registrations of `dict`, `OrderedDict` likewise
+example : (freshReg builtinHier genSetup true).tree "get" =
+    .cons "object" (.cons "_AbstractIterable"
+      (.cons "dict" (.cons "dict" (.cons "OrderedDict" (.cons "OrderedDict" .nil .nil) .nil) .nil)
+        (.cons "list" .nil (.cons "tuple" .nil .nil)))
+      (.cons "_ObjStyleKeys" .nil .nil)) .nil := by decide
 
 end Glom.Props.C13
